@@ -129,10 +129,11 @@ def _closure_reads(lib, clo_name):
     return fields, calls
 
 
-def sort_rules(r, R):
+def source_rules(r, R):
+    """the attribute / children loops run over (a clone of) the element's own complete vectors, and the
+    clone is consumed by nothing but the sort calls and the loop"""
     b = R.body
     fn = b.name
-    # the locals iterated
     for what, l, field in (("attributes", R.attr_loop, "attributes"), ("children", R.child_loop, "children")):
         src = l["source"]
         ok = src[0] == "call" and src[1] == "std::clone::Clone::clone" and _is_self_field(src[2][0], field)
@@ -142,6 +143,35 @@ def sort_rules(r, R):
             continue
         local = src[3].node["dest"]["l"]
         l["local"] = local
+        # every other consumer of the (possibly sorted) clone: only the sort calls and the loop's iterator
+        others = []
+        for cs in b.calls():
+            if cs == src[3]:
+                continue
+            for a in cs.node["args"]:
+                p = mir.op_place(a)
+                if p is None:
+                    continue
+                root = b.through_ref(p)
+                t = strip(term_of(b, a))
+                via_term = t == ("local", local) or (t[0] == "call" and len(t) > 3 and t[3] == src[3])
+                if root["l"] != local and not via_term:
+                    continue
+                nm = cname(cs.node)
+                if nm.startswith(("core::slice::sort", "std::slice::sort")) or nm in mir.TRANSPARENT_CALLS or \
+                        nm in ("std::iter::IntoIterator::into_iter", "core::slice::iter", "std::vec::Vec::iter", "std::vec::Vec::len", "std::vec::Vec::is_empty"):
+                    continue
+                others.append(cs)
+        r.ob("R9.2.clone-only-iterated", "%s: %s" % (fn, what), not others,
+             "the ordered copy of self.%s is used only by the sort and by the %s loop" % (field, what) if not others else
+             "the (option-dependently ordered) copy of self.%s is also handed to %s: something other than the field order can depend on the sort option" % (
+                 field, [cname(c.node) for c in others]), site=(others or [l["next"]])[0], key="R9.2|clone-use|%s" % what)
+
+
+def sort_rules(r, R):
+    b = R.body
+    fn = b.name
+    source_rules(r, R)
     # sort option switch(es)
     sort_sw = []
     for bb in sorted(b.reachable()):
